@@ -640,9 +640,11 @@ def r7_type_is_inline_positional(ctx, F):
                     work += re.findall(r"_\d+", s2.text())
         if "DefParamIndices::num_positional}" in txt:
             guards.append(st)
+    from kern import conjunction_edges
     for site in sites:
         ok = any(f.edge_dominates(e, site.bb) for g in guards
-                 for e in set(bool_local_edges(f, g.lhs, "true")) | set(bool_local_edges(f, g.lhs, "false")))
+                 for e in set(bool_local_edges(f, g.lhs, "false")) |
+                 conjunction_edges(f, {g.lhs}, set(bool_local_edges(f, g.lhs, "true"))))
         ctx.check(ok, "C02.R7", "type-is-inline:positional-parameter",
                   "ReturnTypeIs is only built under a test of the number of positional parameters",
                   "inline_def_body marks a def as `type(x) == T` inlinable without testing that its parameter can be "
